@@ -465,10 +465,8 @@ func handleValueTag(tf *TagsFilter, queriedTagKeys map[string]TagValueIndex, oth
 			// Remove the star tag filter
 			*starTags = append((*starTags)[:tagValInd.index], (*starTags)[tagValInd.index+1:]...)
 			// Once removed, continue to add this tf below to otherTags
-		} else {
-			// Skip adding if already exists and is not a star
-			return
 		}
+		// A further value filter on the same key is kept: all of them must hold (e.g. k!="a",k!="b")
 	}
 	*otherTags = append(*otherTags, tf)
 	queriedTagKeys[tf.TagKey] = TagValueIndex{tagValueType: ValueString, index: len(*otherTags) - 1}
